@@ -8,6 +8,7 @@ usage: judge sys < trace     (trace lines: `<op>\t<impl result>`; first line `cf
 import Iggy.Sys.Model
 import Iggy.Sys.Spec
 import Iggy.Perm.Enum
+import Driver.Journal
 open Iggy Iggy.Log Iggy.Sys
 
 namespace Driver
@@ -560,6 +561,7 @@ def main (args : List String) : IO UInt32 := do
     IO.println ("COV " ++ " ".intercalate (st.cov.map (fun e => s!"{e.1}={e.2}")))
     IO.println s!"DONE lines={st.line} modelled={st.modelled} corr={st.corr} spec={st.specViol}"
     return 0
+  | ["journal"] => Driver.Journal.main
   | ["permsound", a, b] =>
     -- search the enumerated space for an input on which a generated rule violates the specification
     let a := a.toNat?.getD 0
